@@ -96,14 +96,24 @@ class Circuit:
         return len(self.items)
 
     def flattened(self) -> 'Circuit':
+        """Like stim: REPEAT blocks unrolled, SHIFT_COORDS removed and folded into the coordinates of later DETECTORs."""
         out = []
-        for it in self.items:
-            if isinstance(it, RepeatBlock):
-                body = it.body_copy().flattened().items
-                for _ in range(it.repeat_count):
-                    out.extend(body)
-            else:
-                out.append(it)
+        shift: List[Any] = []
+        for it in _expand(self):
+            if it.name == 'SHIFT_COORDS':
+                args = it.gate_args_copy()
+                for i, a in enumerate(args):
+                    if i < len(shift):
+                        shift[i] = shift[i] + a
+                    else:
+                        shift.append(a)
+                continue
+            if it.name in ('DETECTOR', 'QUBIT_COORDS') and shift and it.gate_args_copy():
+                args = it.gate_args_copy()
+                new_args = [a + (shift[i] if i < len(shift) else 0) for i, a in enumerate(args)]
+                out.append(CircuitInstruction(it.name, it.targets_copy(), new_args))
+                continue
+            out.append(it)
         return Circuit(out)
 
     @property
